@@ -442,6 +442,28 @@ func c09(c *Ctx) {
 		k.RequirePreauth = false
 	}
 	k.UDPTooBig = false
+	// ... and when it is the KDC's answer to the RETRY after a demand for pre-authentication (two steps, two codes)
+	for _, first := range []int{25, 24} {
+		for _, code := range []int32{24, 18, 23, 37, 14, 6, 25} {
+			if int32(first) == code {
+				continue
+			}
+			first, code := first, code
+			k.SetASScript(func(n int) int {
+				if n == 0 {
+					return first
+				}
+				return int(code)
+			})
+			cl := newClient(18)
+			err := cl.Login()
+			okc := err != nil && strings.Contains(err.Error(), errorcode.Lookup(code))
+			c.Check(okc, "a KRB-ERROR reply reaches the caller as an error carrying the KDC's error code", fmt.Sprintf("krberror-lost-after-preauth-demand:%d", code), fmt.Sprint(err), map[string]interface{}{"first": first})
+			cl.Destroy()
+			c.Count("exchange:krb-error-after-preauth-demand")
+		}
+	}
+	k.SetASScript(nil)
 
 	// ---- a referral: the reply of the second hop answers the request only if it is sealed under the session key
 	// issued with the referral TGT (not under the key of the TGT presented at the first hop) ----
